@@ -15,13 +15,15 @@ EXPLANATION = (
     "copies in flush_pending, read_buf_window, read_buf_direct_copy, deflate_stored, Window::copy_and_initialize and "
     "deflate::get_dictionary have a count of the form min(.., avail_*) / range length. LINT: #![forbid(unsafe_code)] is in "
     "force for every function of fast, medium, slow, huff, quick, rle, hash_calc, trees_tbl (and inftrees). Progress "
-    "(Finish reaches stream end) and implicit bounds checks are not decided.")
+    "(Finish reaches stream end) and implicit bounds checks are not decided. "
+    "GUARD/signed-offset: `block_start as usize` in any function that can run in an algorithm which reaches fill_window (the only unguarded subtraction from block_start) is used only under block_start >= 0 (dominating test or `(block_start >= 0).then_some(..)`).")
 
 CLAIM = dict(
     text="Static: call-graph inventory of explicit abort constructs against a justified table; expression-shape guards on "
          "the six raw-copy sites of the compression path; lint-level query that unsafe code stays forbidden in the "
          "match-finding drivers. Necessary conditions of 'never aborts / stays in bounds'; progress and the numeric "
-         "invariants behind the listed asserts are not decided.",
+         "invariants behind the listed asserts are not decided. "
+         "Also: the signed block_start is turned into a window offset only under block_start >= 0 wherever fill_window can have made it negative.",
     note="Trusted: rustc MIR, lint levels as reported by the compiler, the justified-abort table (rules/abort_table.py).",
     technique="call-graph abort inventory + count-expression guards + lint-level query over the compiler's program",
 )
